@@ -164,6 +164,9 @@ def check_case(root, spec, pp, cfg, out, armed, excl=None):
                         out.evaluations += 1
                         if bool(m) != (q in ry):
                             ids = K.path_classes(pp, rel, kw, bool(m), R.MUSTNOT if m else R.MUST, text)
+                            # the disagreement has two parties: match() may be the one that is right and rglob() the one that shows a listed
+                            # finding in the opposite direction (e.g. K2 under the crawler's implied NODOTDIR: `+(?|.*)` does not list 'a.')
+                            ids |= K.path_classes(pp, rel, kw, not m, R.MUST if m else R.MUSTNOT, text)
                             if m and isinstance(pp.segs[-1], str) and pp.trail and not os.path.isdir(rel):
                                 ids.add('K16')
                             if m and rel.endswith('\n'):
